@@ -607,7 +607,7 @@ def c01_units():
     return us
 
 
-def units(tier):
+def _own_units(tier):
     wf = c01.WriteFrame()
     wf.prop, wf.name = 'C12', 'C12.frame.contiguous'
     from . import c11
@@ -620,3 +620,8 @@ def units(tier):
     # "exactly once" needs a queue that never discards: the deque _connect creates is unbounded (connect.queue-unbounded)
     cm.prop, cm.name = 'C12', 'C12.queue.created-unbounded'
     return [CallSites(), WritePacketLock(), DisconnectFlush(), wf, pop, rl, Threads(), cm]
+
+
+def units(tier):
+    from .deps import dependency_units
+    return _own_units(tier) + dependency_units('C12')
